@@ -628,8 +628,11 @@ func c06Gen(r *rand.Rand, tier string) []string {
 		// aggregator's final flush, so an exit without it loses everything
 		out = append(out, fmt.Sprintf("kind=proc sig=FAULT at=%d rps=%d procs=%d res=json fl=20000", 300+r.Intn(700), []int{100, 200}[r.Intn(2)], r.Intn(2)))
 		// (round 6) the result stream is the standard output: one pool stopped by a signal, two pools of different length
-		out = append(out, fmt.Sprintf("kind=proc sig=%s at=%d rps=%d procs=%d res=stdout", []string{"TERM", "INT"}[r.Intn(2)], 300+r.Intn(900), []int{100, 200}[r.Intn(2)], r.Intn(2)))
-		out = append(out, fmt.Sprintf("kind=proc sig=NONE at=%d rps=%d procs=%d res=stdout2", 600+r.Intn(800), []int{100, 200}[r.Intn(2)], r.Intn(2)))
+		// (quick: the two corpus lines only)
+		if tier == "thorough" {
+			out = append(out, fmt.Sprintf("kind=proc sig=%s at=%d rps=%d procs=%d res=stdout", []string{"TERM", "INT"}[r.Intn(2)], 300+r.Intn(900), []int{100, 200}[r.Intn(2)], r.Intn(2)))
+			out = append(out, fmt.Sprintf("kind=proc sig=NONE at=%d rps=%d procs=%d res=stdout2", 600+r.Intn(800), []int{100, 200}[r.Intn(2)], r.Intn(2)))
+		}
 		for i := 0; i < nNone; i++ {
 			res := ""
 			if r.Intn(2) == 1 {
